@@ -11,6 +11,7 @@ import re
 
 from ..index import Index, const_eval
 from ..layout import child_table, edge_columns, face_index_repeat
+from ..provenance import Prov
 from ..report import AnalysisError, key_of
 
 LEVEL = "other"
@@ -132,69 +133,215 @@ def check(run):
         run.violation("R3", fe.where, "Trimesh.edges no longer stores the face index produced by the same faces_to_edges call as `edges_face`",
                       key=key_of("C05-R3", "edges-joint"))
     fa = ix.func("trimesh.graph:face_adjacency")
-    txt = ast.unparse(fa.node)
-    ok = ("edges, edges_face = faces_to_edges(faces, return_index=True)" in txt and "edges = mesh.edges_sorted" in txt
-          and "edges_face = mesh.edges_face" in txt and "edges_face[edge_groups]" in txt)
-    run.instance("R3", fa.where, "face_adjacency indexes edges_face with groups of the matching edge array", ok)
-    if not ok:
-        run.violation("R3", fa.where, "face_adjacency pairs an edge array with a face index that is not produced alongside it",
-                      key=key_of("C05-R3", "adjacency-joint"))
-    m = re.search(r"grouping\.group_rows\(edges, require_count=(\d+)\)", txt)
-    ok = m is not None and m.group(1) == "2"
-    run.instance("R3", fa.where, f"adjacency = groups of exactly two equal sorted edges (require_count={m.group(1) if m else None})", ok)
+    pv = Prov(ix, fa)
+    grp = [(st, c) for st in ast.walk(fa.node) if isinstance(st, ast.Assign) for c in [st.value]
+           if isinstance(c, ast.Call) and pv.callee(c.func) == "trimesh.grouping.group_rows"]
+    if len(grp) != 1:
+        raise AnalysisError("anchor vanished: the single group_rows call in graph.face_adjacency")
+    gst, gcall = grp[0]
+    _, gargs, gkw = pv.canon_call(gcall, gst)
+    ok = gkw.get("require_count") == "2"
+    run.instance("R3", fa.where, f"adjacency = groups of exactly two equal sorted edges (require_count={gkw.get('require_count')})", ok)
     if not ok:
         run.violation("R3", fa.where, "face_adjacency no longer groups exactly two equal sorted edges", key=key_of("C05-R3", "adjacency-count"))
+    # the grouped edge array and the face index used to translate groups into faces are produced together
+    e_name = gcall.args[0].id if gcall.args and isinstance(gcall.args[0], ast.Name) else None
+    idx_use = [n for n in ast.walk(fa.node) if isinstance(n, ast.Subscript) and isinstance(n.value, ast.Name) and isinstance(n.slice, ast.Name)
+               and isinstance(gst.targets[0], ast.Name) and n.slice.id == gst.targets[0].id and n.value.id != e_name]
+    ok = False
+    detail = ""
+    if e_name and idx_use:
+        f_name = idx_use[0].value.id
+        use_st = pv.stmt_of(idx_use[0])
+        ea = pv.alternatives(e_name, gst) or set()
+        fa_ = pv.alternatives(f_name, use_st) or set()
+        detail = f"edges from {sorted(ea)}, face index from {sorted(fa_)}"
+        pairs_ok = set()
+        for e_ in ea:
+            if e_.endswith("[0]") and "trimesh.geometry.faces_to_edges(" in e_ and "return_index=True" in e_:
+                if e_[:-3] + "[1]" in fa_:
+                    pairs_ok.add(e_)
+            elif e_.endswith(".edges_sorted") and e_[:-len(".edges_sorted")] + ".edges_face" in fa_:
+                pairs_ok.add(e_)
+        ok = bool(ea) and pairs_ok == ea and len(fa_) == len(ea)
+        # edges taken straight from faces_to_edges have to be sorted within the pair before grouping
+        if any(e_.endswith("[0]") for e_ in ea):
+            sorts = [c for c in ast.walk(fa.node) if isinstance(c, ast.Call) and isinstance(c.func, ast.Attribute) and c.func.attr == "sort"
+                     and isinstance(c.func.value, ast.Name) and c.func.value.id == e_name
+                     and any(k.arg == "axis" and getattr(k.value, "value", None) == 1 for k in c.keywords)]
+            ok = ok and bool(sorts)
+            detail += f"; in-place sort(axis=1) of the fresh edges: {bool(sorts)}"
+    run.instance("R3", fa.where, f"face_adjacency indexes the face index produced alongside the grouped edges ({detail})", ok)
+    if not ok:
+        run.violation("R3", fa.where, f"face_adjacency pairs an edge array with a face index that is not produced alongside it, or groups unsorted edges ({detail})",
+                      key=key_of("C05-R3", "adjacency-joint"))
 
     # ---- R4 winding tests, finite evaluation with symbolic endpoints x != y
     fw = ix.func("trimesh.graph:is_watertight")
-    txt = ast.unparse(fw.node)
-    m = re.search(r"edges\[groups\]\.reshape\(\(-1, (\d+)\)\)\[:, (\d+):(\d+)\]\.T", txt)
+    pw = Prov(ix, fw)
+    rets = [r for r in ast.walk(fw.node) if isinstance(r, ast.Return) and isinstance(r.value, ast.Tuple) and len(r.value.elts) == 2]
+    if len(rets) != 1:
+        raise AnalysisError("anchor vanished: `return watertight, winding` in graph.is_watertight")
+    wt_txt = pw.canon(rets[0].value.elts[0], rets[0])
+    wd_txt = pw.canon(rets[0].value.elts[1], rets[0])
+    G = r"trimesh\.grouping\.group_rows\((?:P_edges_sorted|PHI_edges_sorted|numpy\.sort\(P_edges, axis=1\)), require_count=2\)"
+    alts = pw.alternatives("edges_sorted", rets[0]) if "PHI_edges_sorted" in wt_txt + wd_txt else {"P_edges_sorted"}
+    alts_ok = alts is not None and alts <= {"P_edges_sorted", "numpy.sort(P_edges, axis=1)"}
+    m = re.search(r"P_edges\[" + G + r"\]\.reshape\(\(-1, (\d+)\)\)\[:, ([^\]]+\]?)\]\.T", wd_txt)
     if not m:
-        raise AnalysisError("anchor vanished: `edges[groups].reshape((-1, 4))[:, 1:3].T` in graph.is_watertight")
-    W, a, b = map(int, m.groups())
+        raise AnalysisError(f"anchor vanished: the opposing-edge slice in graph.is_watertight (`{wd_txt[:120]}`)")
+    W = int(m.group(1))
+    sel = m.group(2)
+    try:
+        if sel.startswith("["):
+            picker = [int(x) for x in ast.literal_eval(sel)]
+        else:
+            parts = [int(x) if x.strip() else None for x in sel.split(":")]
+            picker = slice(*parts) if len(parts) > 1 else [parts[0]]
+    except (ValueError, SyntaxError):
+        raise AnalysisError(f"is_watertight: cannot evaluate the column selection `{sel}`")
+    a, b = sel, ""
     opp = ["x", "y", "y", "x"]
     same = ["x", "y", "x", "y"]
-    sel_opp, sel_same = opp[a:b], same[a:b]
-    ok = W == 4 and len(sel_opp) == 2 and sel_opp[0] == sel_opp[1] and sel_same[0] != sel_same[1] and "np.equal(*opposing).all()" in txt
-    run.instance("R4", fw.where, f"reshape width {W}, columns [{a}:{b}] -> opposed twin {sel_opp}, same-direction twin {sel_same}", ok)
+    pick = (lambda row: row[picker]) if isinstance(picker, slice) else (lambda row: [row[i] for i in picker])
+    sel_opp, sel_same = pick(opp), pick(same)
+    ok = W == 4 and len(sel_opp) == 2 and sel_opp[0] == sel_opp[1] and sel_same[0] != sel_same[1] and alts_ok \
+        and re.fullmatch(r"numpy\.equal\(\*.*\)\.all\(\)", wd_txt) is not None
+    run.instance("R4", fw.where, f"reshape width {W}, columns [{a}{b}] -> opposed twin {sel_opp}, same-direction twin {sel_same}; "
+                                 f"pairs from groups of two equal sorted edges ({sorted(alts or [])})", ok)
     if not ok:
-        run.violation("R4", fw.where, "is_watertight's winding test does not compare the head of an edge with the tail of its twin",
+        run.violation("R4", fw.where, "is_watertight's winding test does not compare the head of an edge with the tail of its twin over the groups of two equal sorted edges",
                       key=key_of("C05-R4", "is_watertight"))
-    m2 = re.search(r"watertight = bool\(len\(groups\) \* 2 == len\(edges\)\)", txt)
-    run.instance("R4", fw.where, "watertight iff every edge is in a group of exactly two", m2 is not None)
-    if m2 is None:
-        run.violation("R4", fw.where, "watertightness is no longer `every directed edge belongs to a pair`", key=key_of("C05-R4", "watertight-count"))
+    forms = re.fullmatch(r"(?:len\(" + G + r"\) \* 2|2 \* len\(" + G + r"\)) == len\(P_edges\)|len\(P_edges\) == (?:len\(" + G + r"\) \* 2|2 \* len\(" + G + r"\))", wt_txt)
+    run.instance("R4", fw.where, f"watertight iff every directed edge is in a group of exactly two (`{wt_txt[:90]}`)", forms is not None)
+    if forms is None:
+        run.violation("R4", fw.where, f"watertightness is no longer `every directed edge belongs to a pair` (`{wt_txt[:100]}`)", key=key_of("C05-R4", "watertight-count"))
     fx = ix.func("trimesh.repair:fix_winding")
-    txt = ast.unparse(fx.node)
-    ok = "if edge_pair[0][0] == edge_pair[1][0]:" in txt and "faces[face_pair[1]] = faces[face_pair[1]][::-1]" in txt
-    run.instance("R4", fx.where, "fix_winding flips the second face when the shared edge runs the same way in both", ok)
+    px = Prov(ix, fx)
+    flips = [(st, i) for st in ast.walk(fx.node) if isinstance(st, ast.Assign) and isinstance(st.targets[0], ast.Subscript)
+             for i in [st.targets[0]] if isinstance(i.value, ast.Name) and isinstance(st.value, ast.Subscript)
+             and ast.unparse(st.value.slice).strip("()") == "::-1" and ast.unparse(st.value.value) == ast.unparse(i)]
+    ok = len(flips) == 1
+    gd = ""
+    if ok:
+        fst, tgt = flips[0]
+        gs = px.guards(fst, stop=("edges",))
+        gd = gs[-1] if gs else ""
+        # guard: the two copies of the shared edge start at the same vertex <=> the edge runs the same way in both faces
+        shared = "L_edges[trimesh.grouping.group_rows(numpy.sort(L_edges, axis=1), require_count=2)[0]]"
+        ok = gd in (f"{shared}[0][0] == {shared}[1][0]", f"{shared}[1][0] == {shared}[0][0]", f"{shared}[0][1] == {shared}[1][1]")
+        # the edges are those of exactly the pair of faces, and the flipped face is one of that pair
+        ea = px.alternatives("edges", fst, stop=("faces", "face_pair"))
+        ok = ok and ea == {"trimesh.geometry.faces_to_edges(L_faces[L_face_pair])"}
+        ok = ok and px.canon(tgt, fst, stop=("faces", "face_pair")) in ("L_faces[L_face_pair[1]]", "L_faces[L_face_pair[0]]")
+    run.instance("R4", fx.where, f"fix_winding reverses one face of the pair exactly when the shared edge starts at the same vertex in both (`{gd[:80]}`)", ok)
     if not ok:
         run.violation("R4", fx.where, "fix_winding's same-direction test or flip changed", key=key_of("C05-R4", "fix_winding"))
 
-    # ---- R5 sorting axis
-    for spec in ("trimesh.base:Trimesh.edges_sorted",):
-        fi = ix.func(spec)
-        txt = ast.unparse(fi.node)
-        ok = re.search(r"np\.sort\(self\.edges, axis=1\)", txt) is not None
-        run.instance("R5", fi.where, "edges_sorted = sort(edges, axis=1)", ok)
-        if not ok:
-            run.violation("R5", fi.where, "edges_sorted is not the edges sorted within each pair (axis=1)", key=key_of("C05-R5", spec))
+    # ---- R5 sorting axis and unique-edge derivations (canonical forms)
+    fi = ix.func("trimesh.base:Trimesh.edges_sorted")
+    pe = Prov(ix, fi)
+    rr = [pe.canon(r.value, r) for r in ast.walk(fi.node) if isinstance(r, ast.Return) and r.value is not None]
+    ok = bool(rr) and all(t in ("numpy.sort(P_self.edges, axis=1)", "numpy.sort(P_self.edges, axis=-1)", "numpy.sort(P_self.edges, 1)") for t in rr)
+    run.instance("R5", fi.where, f"edges_sorted = sort(edges) within each pair ({rr})", ok)
+    if not ok:
+        run.violation("R5", fi.where, f"edges_sorted is not the edges sorted within each pair (axis=1): {rr}", key=key_of("C05-R5", "trimesh.base:Trimesh.edges_sorted"))
     fi = ix.func("trimesh.base:Trimesh.edges_unique")
-    txt = ast.unparse(fi.node)
-    ok = ("grouping.unique_rows(self.edges_sorted)" in txt and "self._cache['edges_unique_inverse'] = inverse" in txt
-          and "self.edges_sorted[unique]" in txt)
-    run.instance("R5", fi.where, "edges_unique / inverse come from unique_rows(edges_sorted)", ok)
+    pe = Prov(ix, fi)
+    rr = [pe.canon(r.value, r) for r in ast.walk(fi.node) if isinstance(r, ast.Return) and r.value is not None]
+    U = "trimesh.grouping.unique_rows(P_self.edges_sorted)"
+    inv = [pe.canon(st.value, st) for st in ast.walk(fi.node) if isinstance(st, ast.Assign) and ast.unparse(st.targets[0]) == "self._cache['edges_unique_inverse']"]
+    ok = rr == [f"P_self.edges_sorted[{U}[0]]"] and inv == [f"{U}[1]"]
+    run.instance("R5", fi.where, f"edges_unique / inverse come from unique_rows(edges_sorted) ({rr}, inverse {inv})", ok)
     if not ok:
         run.violation("R5", fi.where, "edges_unique no longer derives (unique, inverse) from unique_rows over the sorted edges",
                       key=key_of("C05-R5", "edges_unique"))
     fi = ix.func("trimesh.base:Trimesh.euler_number")
-    txt = ast.unparse(fi.node).replace(" ", "")
-    m = re.search(r"len\(self\.vertices\)-len\(self\.edges_unique\)+len\(self\.faces\)".replace("+", r"\+"), txt)
-    ok = m is not None
-    alt = re.search(r"referenced_vertices\.sum\(\)-len\(self\.edges_unique\)\+len\(self\.faces\)", txt) is not None
-    run.instance("R5", fi.where, "euler_number = V - E + F over unique edges", ok or alt)
-    if not (ok or alt):
-        run.violation("R5", fi.where, "euler_number is not V - E(unique) + F", key=key_of("C05-R5", "euler"))
+    pe = Prov(ix, fi)
+    rets = [r for r in ast.walk(fi.node) if isinstance(r, ast.Return) and r.value is not None]
+    terms = []
+
+    def lin(e, sign):
+        if isinstance(e, ast.BinOp) and isinstance(e.op, (ast.Add, ast.Sub)):
+            lin(e.left, sign)
+            lin(e.right, sign if isinstance(e.op, ast.Add) else -sign)
+        elif isinstance(e, ast.Call) and ast.unparse(e.func) == "int" and len(e.args) == 1:
+            lin(e.args[0], sign)
+        else:
+            terms.append((sign, ast.unparse(e)))
+
+    ok = len(rets) == 1
+    if ok:
+        lin(ast.parse(pe.canon(rets[0].value, rets[0]), mode="eval").body, 1)
+        t = sorted(terms)
+        ok = sorted(t) in (sorted([(1, "P_self.referenced_vertices.sum()"), (-1, "len(P_self.edges_unique)"), (1, "len(P_self.faces)")]),
+                           sorted([(1, "len(P_self.vertices)"), (-1, "len(P_self.edges_unique)"), (1, "len(P_self.faces)")]))
+    run.instance("R5", fi.where, f"euler_number = V - E + F over unique edges ({sorted(terms)})", ok)
+    if not ok:
+        run.violation("R5", fi.where, f"euler_number is not V - E(unique) + F: {sorted(terms)}", key=key_of("C05-R5", "euler"))
+
+    # ---- R6 no shortcut: every result flows from the counting computation, early exits only on emptiness
+    run.rule("R6", "every return of a topological query goes through its counting computation; a return that bypasses it is allowed only under an emptiness test")
+    EMPTY = re.compile(r"(P_self\.is_empty|P_mesh\.is_empty|len\((?:P_|PHI_)[\w.]+\) == 0)( and .*)?$")
+    CORE = {
+        "trimesh.base:Trimesh.is_watertight": ["trimesh.graph.is_watertight(edges=P_self.edges, edges_sorted=P_self.edges_sorted)"],
+        "trimesh.base:Trimesh.is_winding_consistent": ["P_self._cache['is_winding_consistent']"],
+        "trimesh.base:Trimesh.euler_number": ["len(P_self.edges_unique)"],
+        "trimesh.base:Trimesh.body_count": ["connected_components(P_self.edges_sparse"],
+        "trimesh.base:Trimesh.face_adjacency": ["trimesh.graph.face_adjacency(mesh=P_self"],
+        "trimesh.base:Trimesh.face_adjacency_edges": ["P_self._cache['face_adjacency_edges']"],
+        "trimesh.base:Trimesh.edges": ["trimesh.geometry.faces_to_edges(P_self.faces"],
+        "trimesh.base:Trimesh.edges_unique": ["trimesh.grouping.unique_rows(P_self.edges_sorted)"],
+        "trimesh.base:Trimesh.edges_sorted": ["numpy.sort(P_self.edges"],
+        "trimesh.base:Trimesh.edges_sparse": ["trimesh.graph.edges_to_coo(P_self.edges"],
+        "trimesh.base:Trimesh.vertex_neighbors": ["trimesh.graph.neighbors(edges=P_self.edges_unique"],
+        "trimesh.base:Trimesh.vertex_degree": ["P_self.faces_sparse.sum(axis=1)"],
+        "trimesh.base:Trimesh.vertex_faces": ["trimesh.geometry.vertex_face_indices(faces=P_self.faces"],
+        "trimesh.base:Trimesh.split": ["trimesh.graph.split(P_self"],
+        "trimesh.graph:split": ["trimesh.graph.connected_components(edges="],
+        "trimesh.graph:face_adjacency": ["trimesh.grouping.group_rows("],
+        "trimesh.graph:is_watertight": ["trimesh.grouping.group_rows("],
+        "trimesh.graph:connected_component_labels": ["scipy.sparse.csgraph.connected_components(trimesh.graph.edges_to_coo(P_edges"],
+        "trimesh.graph:connected_components": ["PHI_components_csgraph", "networkx.connected_components(", "trimesh.grouping.group(", "PHI_components", "P_nodes", "PHI_nodes"],
+        "trimesh.geometry:faces_to_edges": ["P_faces[:, ["],
+    }
+    n6 = 0
+    for spec, cores in CORE.items():
+        try:
+            fi = ix.func(spec)
+        except Exception:
+            raise AnalysisError(f"anchor vanished: {spec}")
+        pq = Prov(ix, fi)
+        for r in ast.walk(fi.node):
+            if not isinstance(r, ast.Return) or pq.stmt_of_return(r) is None:
+                continue
+            n6 += 1
+            val = pq.canon(r.value, r) if r.value is not None else "None"
+            if any(c in val for c in cores):
+                run.instance("R6", fi.where, f"{fi.qualname}: `return {val[:70]}` flows from the counting computation", True)
+                continue
+            g = pq.guards(r)
+            ok = any(EMPTY.match(x) for x in g)
+            run.instance("R6", fi.where, f"{fi.qualname}: shortcut `return {val[:40]}` under {g}", ok)
+            if not ok:
+                run.violation("R6", fi.where, f"`{fi.qualname}` returns `{val[:60]}` under {g or ['no condition']} without going through its counting computation "
+                                              f"({cores[0][:50]}...): only an emptiness test may decide the answer without looking at the edges",
+                              key=key_of("C05-R6", spec, val[:40]))
+    run.floor("returns of topological queries examined", n6, 24)
+    # graph.split: components are computed on face adjacency over all faces
+    sp = ix.func("trimesh.graph:split")
+    ps = Prov(ix, sp)
+    cc = [(pv_st, c) for pv_st in ast.walk(sp.node) if isinstance(pv_st, ast.Assign) for c in [pv_st.value]
+          if isinstance(c, ast.Call) and ps.callee(c.func) == "trimesh.graph.connected_components"]
+    ok = len(cc) == 1
+    if ok:
+        st_, c_ = cc[0]
+        _, a_, k_ = ps.canon_call(c_, st_)
+        adj = ps.alternatives("adjacency", st_) if k_.get("edges") == "PHI_adjacency" else {k_.get("edges")}
+        ok = adj is not None and adj <= {"P_adjacency", "P_mesh.face_adjacency"} and k_.get("nodes") == "numpy.arange(len(P_mesh.faces))"
+    run.instance("R6", sp.where, "split = connected components of face adjacency over every face index", ok)
+    if not ok:
+        run.violation("R6", sp.where, "graph.split does not take connected components of the face adjacency over all faces", key=key_of("C05-R6", "split-core"))
 
     run.floor("consumers checked", len([i for i in run.instances if i["rule"] == "R3"]), 8)
     return {
